@@ -27,10 +27,10 @@ func Run(id string, start time.Time) int {
 	scratch := h.Scratch(id)
 	defer os.RemoveAll(scratch)
 
-	ntrees := h.Pick(28, 63)
+	ntrees := h.Pick(28, 56)
 	loads := h.Pick(200, 2000)  // free-running loads per tree in one process at GOMAXPROCS=4
-	loadsAlt := h.Pick(50, 300) // ... and in one process each at GOMAXPROCS=1 and 16
-	repeats := h.Pick(2, 6)     // loads per enforced completion order (GOMAXPROCS=4 process)
+	loadsAlt := h.Pick(50, 200) // ... and in one process each at GOMAXPROCS=1 and 16
+	repeats := h.Pick(3, 6)     // loads per enforced completion order (GOMAXPROCS=4 process)
 	repeatsAlt := h.Pick(1, 2)  // ... at GOMAXPROCS=1 and 16
 
 	// 1. generate and write the trees
@@ -260,7 +260,7 @@ func Run(id string, start time.Time) int {
 				// not explained by the completion order: same signature as the free-running finding
 				report(part, t, k.kind, "", o, fmt.Sprintf("with the completion order of the include readers of f%d held fixed, repeated loads still gave different values of %q:\n%s", k.parent, k.kind, strings.Join(detail, "\n")))
 			} else {
-				report(part, t, k.kind, "by-completion-order", o, fmt.Sprintf("value of %q is a function of the completion order of the sibling include readers of f%d:\n%s", k.kind, k.parent, strings.Join(detail, "\n")))
+				report(part, t, k.kind, "by-completion-order", o, fmt.Sprintf("every load under one completion order of the sibling include readers of f%d gave the same value of %q, different orders gave different values (consistent with a dependence on the completion order):\n%s", k.parent, k.kind, strings.Join(detail, "\n")))
 			}
 		}
 	}
